@@ -507,11 +507,13 @@ def _shard_worker(idx, timeout_ms, shard, out):
 
 
 def _run_sharded(ctx, idx, timeout_ms, nshards):
-    """one harness (a task that calls run_function exactly once) explored by `nshards` forked workers sharing the stack of
-    pending decision prefixes; each worker discharges the obligations of the paths it explored"""
-    q, outstanding, out = ctx.Queue(), ctx.Value("i", 1), ctx.Queue()
-    q.put([])
-    procs = [ctx.Process(target=_shard_worker, args=(idx, timeout_ms, (q, outstanding), out)) for _ in range(nshards)]
+    """one task explored by `nshards` forked workers sharing, per run_function call, the stack of pending decision
+    prefixes; each worker discharges the obligations of the paths it explored"""
+    rounds = 24                        # run_function calls a task may make
+    queues, counters, out = [ctx.Queue() for _ in range(rounds)], ctx.Array("i", [1] * rounds), ctx.Queue()
+    for q in queues:
+        q.put([])
+    procs = [ctx.Process(target=_shard_worker, args=(idx, timeout_ms, (queues, counters), out)) for _ in range(nshards)]
     for p in procs:
         p.start()
     results = []
@@ -526,6 +528,9 @@ def _run_sharded(ctx, idx, timeout_ms, nshards):
         p.join(timeout=10)
         if p.is_alive():
             p.terminate()
+    for q in queues:
+        q.cancel_join_thread()
+        q.close()
     if len(results) < nshards:
         results.append({"obligations": [], "undecided": [], "paths": 0, "functions": {}, "used_contracts": set(), "assumptions": set(),
                         "error": f"{nshards - len(results)} shard worker(s) died without a result", "queries": 0, "solver_s": 0.0, "wall": 0.0})
@@ -538,7 +543,7 @@ def _run_sharded(ctx, idx, timeout_ms, nshards):
 
 def run_parallel(spec, factory, tasks, nproc=None, timeout_ms=10000):
     """tasks: list of callables task(spec).  Results are merged into `spec` (records instead of z3 obligations).
-    A task with attribute `shards = N` (it must call run_function exactly once) is explored by N workers."""
+    A task with attribute `shards = N` is explored by N workers (every prefix by exactly one of them)."""
     import multiprocessing as mp
     ctx = mp.get_context("fork")
     _TASKS["factory"], _TASKS["tasks"] = factory, list(tasks)   # inherited by the forked workers
@@ -551,6 +556,9 @@ def run_parallel(spec, factory, tasks, nproc=None, timeout_ms=10000):
         if getattr(t, "shards", 0):
             results += _run_sharded(ctx, i, timeout_ms, t.shards)
     faults = []
+    if os.environ.get("PYVC_TIMES"):
+        for i in plain:
+            print("TASK", tasks[i].__name__, round(results[plain.index(i)]["wall"], 1), "s", file=_sys.stderr)
     for r in results:
         spec.obligations.extend(r["obligations"])
         spec.undecided.extend(r["undecided"])
